@@ -210,6 +210,15 @@ def validate(func, /, *args, **kwds):
         p_kwds = p_defaults = {}
         p_required = set()
 
+    # a bound method already holds its instance: FAIL if it is given by keyword
+    if inspect.ismethod(func) and func.__self__ is not None:
+        try: bound = inspect.getfullargspec(func).args[:1]
+        except TypeError: bound = []
+        code = getattr(func.__func__, '__code__', None)
+        if getattr(code, 'co_posonlyargcount', 0): bound = [] # a keyword of that name is then just a keyword
+        if bound and (bound[0] in kwds or bound[0] in p_kwds):
+            raise TypeError("%s() got multiple values for argument '%s'" % (func.__name__, bound[0]))
+
     # get bad args/kwds from markup
     bad_args = set(i.strip('!') for i in named if i.startswith('!'))
     bad_kwds = set(i.strip('!') for i in defaults if i.startswith('!'))
